@@ -144,7 +144,15 @@ def check(prog, rep, tier):
     txt = src_of(r.node)
     trues = [n for n in ast.walk(r.node) if isinstance(n, ast.Return) and isinstance(n.value, ast.Constant)
              and n.value.value is True]
-    okr = bool(trues)
+    direct = [n for n in ast.walk(r.node) if isinstance(n, ast.Return) and isinstance(n.value, ast.Compare)]
+    okr = bool(trues) or bool(direct)
+    for d in direct:
+        if not ('ST_ESTABLISHED' in src_of(d.value) and len(d.value.ops) == 1 and isinstance(d.value.ops[0], ast.Eq)):
+            okr = False
+    other_rets = [n for n in ast.walk(r.node) if isinstance(n, ast.Return) and n not in trues and n not in direct]
+    for o in other_rets:
+        if not (o.value is None or (isinstance(o.value, ast.Constant) and not o.value.value)):
+            okr = False
     for t in trues:
         guard = [i for i in ast.walk(r.node) if isinstance(i, ast.If) and any(t is x for b in i.body for x in ast.walk(b))]
         if not guard or not all('ST_ESTABLISHED' in src_of(i.test) and isinstance(i.test, ast.Compare) and
@@ -263,7 +271,7 @@ def check(prog, rep, tier):
         for t in trues:
             guards = [i for i in ast.walk(f.node) if isinstance(i, ast.If) and
                       any(t is x for b in i.body for x in ast.walk(b))]
-            if not any('.fsm.protocol.%s(' % meth in src_of(i.test) for i in guards):
+            if not any('.fsm.protocol.%s(' % meth in common.expand_helpers(u, src_of(i.test)) for i in guards):
                 good = False
                 why = 'status True is returned without testing the result of protocol.%s' % meth
         calls = [n for n in ast.walk(f.node) if isinstance(n, ast.Call) and isinstance(n.func, ast.Attribute)
@@ -271,7 +279,7 @@ def check(prog, rep, tier):
         if len(calls) != 1:
             good = False
             why = '%d calls of protocol.%s (exactly one message per request expected)' % (len(calls), meth)
-        elif "running_config['factory'].fsm.protocol" not in src_of(calls[0].func.value):
+        elif "running_config['factory'].fsm.protocol" not in common.expand_helpers(u, src_of(calls[0].func.value)):
             good = False
             why = 'the message is not sent on the tracked protocol (factory.fsm.protocol)'
         key = 'utils.%s' % name
